@@ -12,6 +12,7 @@ constructor keywords (sa/xmlr.py) and the parsed XSD are compared:
               state fields and schema element names
   RT-ENUM     text->enum chains of the reader are exhaustive and map each text to the member with that
               value; boolean and direction encodings agree; schema enumeration values are enum values
+  RT-TIME     every call of StateXMLNode.create_state_node writes the state with that state's own time step
   RT-ORDER    ordered collections are iterated in stored order when written and accumulated in document
               order into lists when read; point coordinates x,y come from / go to indices 0,1
   RT-GUARD    whether a value is written depends on that value only: every condition an emission stands under reads
